@@ -2,7 +2,9 @@ PROPS["C04"] = dict(
     pkg="p_distlock", hooks=["timeout", "inmem", "distlock"], level="exploration", design="DESIGN.md §4 C04",
     technique="schedule-controlled PBT in a testing/synctest bubble with gated storage calls; oracles: exact quiescence-with-work-remaining detector (lost wake-up), per-cancel verdict, residue checks, shutdown verdicts",
     rule="case = as C01 without faults, plus cancel moves (before start, in the local wait, at the gate before Create / before the wait, inside the "
-         "storage wait) and Shutdown(provider) moves; after the drawn decisions the scheduler drains (release / start / unlock until no move is "
+         "storage wait) and Shutdown(provider) moves; a third of the cancellable attempts use a WithCancelCause context cancelled with a cause of the harness (the attempt must still return ctx.Err(), i.e. context.Canceled), and a third park at the scheduler inside the first ctx.Err() call "
+         "the lock code makes after the cancellation (a schedule point between an attempt's decision to give up and its clean-up: other workers unlock, start and get released meanwhile); the key space is spelled with various prefixes and lock names; "
+         "after the drawn decisions the scheduler drains (release / start / unlock until no move is "
          "enabled). Checked: after a cancel and the release of the attempt's own pending call the attempt has returned the context's error and "
          "holds nothing; at the end of the drain nobody is left inside a call (otherwise: lost wake-up), no lock record and no waiter-table entry "
          "is left, every Locker of a live provider can TryLock+Unlock again; an attempt started after Shutdown returned never acquires; "
